@@ -30,7 +30,7 @@ RULE = (
     "serialize (also under PassThroughOptions(dataclasses=True), a passed-through instance being emitted under its field names), properties / required / dependentRequired of both schemas, loc of structural / field-validator / yielded "
     "errors (plain, nested, flattened), GraphQL output field, input field and argument names and the loc of a GraphQL "
     "argument error (names that are GraphQL identifiers); the plain / nested / flattened data again under one more layer of "
-    "constraints (call-level schema=, Annotated item of a list) within the same cache lifetime. distinct_nontrivial counts distinct (configuration, view)."
+    "constraints (call-level schema=, Annotated item of a list) within the same cache lifetime; a class aliaser registered, then replaced, on a class every view of which is already warm. distinct_nontrivial counts distinct (configuration, view)."
 )
 
 NAMES = ["a_b", "aB", "a_b1"]
@@ -408,7 +408,71 @@ def configs():
 BATCH = 12
 
 
+def run_late_class_aliaser(st: infra.Stats):
+    """a class aliaser registered AFTER the class has been used once (every view warm), then replaced: every view follows"""
+    from apischema import alias
+    from apischema.objects import get_alias
+
+    src = """
+@dataclass
+class LA:
+    a_b: int = field()
+    other: int = field(default=0)
+    @validator
+    def yielding(self):
+        _ = self.a_b
+        if SWITCH.get("yielding"):
+            yield get_alias(self).a_b, "yielded"
+"""
+    for dyn in DYN:
+        mod = exec_source(PRELUDE + "from apischema.objects import get_alias\n" + src)
+        C = mod.LA
+        kw = {"aliaser": DYN[dyn]}
+
+        def observe(cal):
+            ext, oth = DYN[dyn](cal("a_b")), DYN[dyn](cal("other"))
+            out = {}
+            try:
+                out["deserialize"] = deserialize(C, {ext: 1, oth: 2}, **kw) == C(1, 2)
+            except ValidationError as e:
+                out["deserialize"] = locs(e)
+            out["serialize"] = sorted(serialize(C, C(1, 2), **kw)) == sorted([ext, oth])
+            for sname, fn in (("deserialization_schema", deserialization_schema), ("serialization_schema", serialization_schema)):
+                out[sname] = sorted(fn(C, **kw).get("properties", {})) == sorted([ext, oth])
+            try:
+                deserialize(C, {oth: 1}, **kw)
+                out["missing_loc"] = "accepted"
+            except ValidationError as e:
+                out["missing_loc"] = locs(e) == [((ext,), "missing property")] or locs(e)
+            mod.SWITCH["yielding"] = True
+            try:
+                deserialize(C, {ext: 1}, **kw)
+                out["validator_loc"] = "accepted"
+            except ValidationError as e:
+                out["validator_loc"] = locs(e) == [((ext,), "yielded")] or locs(e)
+            finally:
+                mod.SWITCH.clear()
+            return out
+
+        observe(lambda s_: s_)  # warm every view
+        for step, cal in (("first registration", str.upper), ("second registration", lambda s_: "p_" + s_)):
+            alias(cal)(C)
+            st.case("late_class_aliaser", dyn, step)
+            for view, ok in observe(cal).items():
+                if ok is not True:
+                    st.violation({"config": "late class aliaser", "dyn": dyn, "signature": {"kind": "name_mismatch", "view": "late:" + view, "class_aliaser": True, "has_alias": False, "dyn": dyn != "id"}, "what": f"{view} does not use the external names of the class aliaser registered ({step}) on a class already used: {ok}"[:400]})
+        sys.modules.pop(mod.__name__, None)
+        apischema.cache.reset()
+
+
 def work(tier, widx, nworkers, st, extra):
+    if widx == (1 % nworkers):
+        try:
+            run_late_class_aliaser(st)
+        except Exception:
+            import traceback
+
+            st.violation({"signature": {"kind": "harness_error"}, "harness_error": True, "what": "late class aliaser", "traceback": traceback.format_exc()[-2000:]})
     cfgs = configs()
     batches = [cfgs[i : i + BATCH] for i in range(0, len(cfgs), BATCH)]
     try:
